@@ -104,6 +104,11 @@ CALIBRATION = [
     "longer than the axis, integer 'mean'/'linear_ramp' pads, pads of non-finite data, datetime/timedelta inputs.",
     "block_info-free: the 0-d block view finding is reported once per case and does not stop the remaining checks of the case.",
     "programs are cut before a stage with more than MAX_BLOCKS blocks (run time bound of the generator).",
+    "second thorough run (patched tree): harness artefacts corrected - (a) rounding differences of a float32 stage survive a cast to "
+    "float64, the tolerance keeps single precision from then on; (b) unique/comparisons/casts after an inexact float step amplify "
+    "rounding differences into different results: not generated after such a step (c25_ops.discontinuous); (c) x.blocks[()] that "
+    "is a bare Python scalar is judged by NumPy's dtype for it; (d) the cum.sequential / negative-step / coarsen / var-std "
+    "mechanisms take precedence over the aligned-op label when the input has a short split axis.",
     "thorough run: float32 * 0-d float64 dask operand (computed in float32: C19), unique with NaN in several chunks (C27), setitem "
     "through negative-step slices (C21 #2) moved out of the generator; a 0-d block that is a bare Python scalar (1j / x) is judged "
     "by the dtype NumPy gives it.",
@@ -161,7 +166,7 @@ def _gen_pipeline(rng):
             chunks = tuple(tuple(c) if a == ax else cs for a, cs in enumerate(chunks))
     v = A.rand_data(dseed, shape, dtype, special=(dseed % 3 == 0))
     nsteps = rng.randint(2, 6)
-    steps, unknown, tries = [], False, 0
+    steps, unknown, tries, rounded = [], False, 0, False
     with warnings.catch_warnings():
         warnings.simplefilter("ignore")
         with np.errstate(all="ignore"):
@@ -170,6 +175,10 @@ def _gen_pipeline(rng):
                 st = O.gen_step(rng, v, unknown)
                 if st is None:
                     continue
+                if rounded and v.dtype.kind in "fc" and O.discontinuous(st):
+                    # after a step that reassociates floating point arithmetic the two sides differ by rounding; steps that
+                    # turn a rounding difference into a different result (unique, comparisons, casts to int ...) are not generated
+                    continue
                 try:
                     nv = np.asarray(O.apply_step(st, v, "np"))
                 except Exception:  # noqa: BLE001  (NumPy refuses: draw another step)
@@ -177,6 +186,7 @@ def _gen_pipeline(rng):
                 if nv.size > 240 or nv.ndim > 4 or nv.dtype.kind not in "biufcMm":
                     continue
                 steps.append(st)
+                rounded = rounded or (v.dtype.kind in "fc" or nv.dtype.kind in "fc") and O.inexact(st, nv.dtype.kind)
                 v = nv
                 if st["op"] in ("maskdask", "unique", "argwhere", "flatnonzero") or (st["op"] == "bincount" and st["minlength"] == 0):
                     unknown = True
@@ -222,7 +232,8 @@ def stage_mismatch(d, whole, ctx):
     if d.ndim == 0:
         # one mechanism, one label: the block view of ANY 0-d array (whatever produced it)
         b = via_blocks[0]
-        if np.shape(b) != () or getattr(b, "dtype", None) != d.dtype or (whole is not None and not _same(b, whole)):
+        bdt0 = b.dtype if hasattr(b, "dtype") else (np.asarray(b).dtype if isinstance(b, (bool, int, float, complex)) else None)
+        if np.shape(b) != () or bdt0 != d.dtype or (whole is not None and not _same(b, whole)):
             # reported once per case and NOT treated as "first failing stage": the other facets of this stage and the later
             # stages are still checked (a known finding must not mask anything else)
             if not any(v["label"] == BLOCKVIEW_0D for v in ctx.violations):
@@ -305,14 +316,12 @@ def classify(st, name, feat, facet):
     f = set(feat.split("&"))
     shapeish = facet.startswith(SHAPE_FACETS)
     op = st.get("op")
-    if SHORT_AXIS in f:
-        return "aligned-op:%s:blocks-do-not-match-chunks" % SHORT_AXIS          # unify_chunks
-    empty = bool(f & {"zero-length", "zero-size-chunk"})
+    empty = bool(f & {"zero-length", "zero-size-chunk", SHORT_AXIS})
     if empty and shapeish and op == "reduce" and st["fn"] in ("min", "max", "nanmax", "nanmin"):
         return "reduce.minmax:empty-blocks:result-shape"                          # chunk_min/chunk_max placeholder
     if empty and shapeish and op == "searchsorted":
         return "searchsorted:empty-blocks:result-shape"                           # same, through out.max(axis=0)
-    if "zero-size-chunk" in f:
+    if "zero-size-chunk" in f or SHORT_AXIS in f:   # (a short split axis has zero-size chunks too)
         if _negative_step(st) and facet.startswith("vs-numpy"):
             return "negative-step-slice:zero-size-chunk:" + facet
         if op == "cum" and st.get("method") == "sequential" and shapeish:
@@ -321,6 +330,8 @@ def classify(st, name, feat, facet):
             return "reduce.var-std:zero-size-chunk:vs-numpy-values"
         if op == "coarsen" and shapeish:
             return "coarsen:zero-size-chunk:result-shape"
+    if SHORT_AXIS in f:
+        return "aligned-op:%s:blocks-do-not-match-chunks" % SHORT_AXIS          # unify_chunks
     return "%s:%s:%s" % (name, feat, facet)
 
 
@@ -373,7 +384,7 @@ def run_case(case, ctx):
             except Exception as ex:  # noqa: BLE001
                 joint_ex = ex
             # ---- per stage facets, in program order ------------------------------------------------
-            inexact, scale, nmax = False, 1.0, 1
+            inexact, scale, nmax, lowprec = False, 1.0, 1, False
             for k in range(len(stages)):
                 d, e = stages[k], exp[k]
                 st = steps[k - 1] if k else {"op": "from_array"}
@@ -432,7 +443,11 @@ def run_case(case, ctx):
                         scale = max(scale, float(fin.max()))
                 nmax = max(nmax, int(e.size), int(x.size))
                 ctx.count("compared_with_numpy")
-                m = compare_arrays(whole, e, exact=not inexact, n=nmax, scale=scale * scale)
+                if e.dtype in (np.dtype("float32"), np.dtype("complex64")):
+                    lowprec = True   # single precision rounding of an earlier stage survives a later cast to double
+                factor = 8.0 * (float(np.finfo(np.float32).eps) / float(np.finfo(np.float64).eps)) \
+                    if (lowprec and e.dtype in (np.dtype("float64"), np.dtype("complex128"))) else 8.0
+                m = compare_arrays(whole, e, exact=not inexact, n=nmax, scale=scale * scale, factor=factor)
                 if m:
                     ctx.violation(lab("vs-numpy-" + m[0]), m[1], step=st, stage=k, lazy_chunks=str(d.chunks))
                     return
